@@ -8,9 +8,10 @@
    The integer grid bounds MINS/MAXS are `clip (rint q)` of a rational q = n/d (d > 0) given to the model: the
    implementation's q is fl(fl(b - offset) / scale); `exact_q` is the same quotient without rounding.
 
-   The merge of a loaded page is the repaired one (a loaded page never overrides a resolved entry). *)
+   The merge of a loaded page is the repaired one (a loaded page never overrides a resolved entry), and a loaded page is
+   checked against the page-reference rule before it is merged (a refused query leaves the reader's hierarchy as it was). *)
 From Coq Require Import String.
-From Coq Require Import ZArith List Bool Lia.
+From Coq Require Import ZArith List Bool Lia Permutation.
 From LasV Require Import Lib.Base Gen.GenCopc.
 Import ListNotations.
 Open Scope list_scope.
@@ -71,6 +72,11 @@ Definition merge (h : list entry) (p : page) : list entry :=
   map (fun o => if is_ref o then match lookup (e_key o) pd with Some e => e | None => o end else o) h
   ++ filter (fun e => negb (has_key (e_key e) h)) pd.
 
+(* the page-reference rule, checked on the loaded page BEFORE anything of it is merged: the page describes the key it was
+   referenced for (an entry of that key that is not again a reference) *)
+Definition page_describes (k : vkey) (p : page) : bool :=
+  match lookup k (page_dict p) with Some d => negb (is_ref d) | None => false end.
+
 (* ---------- geometry (exact, scaled) ---------- *)
 Record geom := mkGeom { g_x : Z; g_y : Z; g_z : Z; g_side : Z }.
 Record box := mkBox { b_x0 : Z; b_y0 : Z; b_z0 : Z; b_x1 : Z; b_y1 : Z; b_z1 : Z }.
@@ -111,11 +117,8 @@ Fixpoint traverse (fuel : nat) (t : tree) (g : geom) (ob : option box) (lv : opt
       | None => traverse f t g ob lv h st' acc
       | Some e =>
         if is_ref e then
-          let h' := merge h (page_at (t_pages t) (e_off e) (e_size e)) in
-          match lookup k h' with
-          | None => Err EOther
-          | Some e' => if is_ref e' then Err ELaspy else traverse f t g ob lv h' (st' ++ [k]) acc
-          end
+          let p := page_at (t_pages t) (e_off e) (e_size e) in
+          if page_describes k p then traverse f t g ob lv (merge h p) (st' ++ [k]) acc else Err ELaspy
         else if e_cnt e >=? gen_node_min_count then
           traverse f t g ob lv h (rev (children k) ++ st') (if in_level lv k then e :: acc else acc)
         else (* a count below -1: the node keeps its defaults and has no children *)
@@ -294,6 +297,86 @@ Definition query_fresh (qb : qbox) (s : qstep) : result (list pt) :=
   query (fuel_bound (s_tree s)) (s_tree s) (s_geom s) qb (s_hz0 s) (s_hz1 s) (s_grid s (ensure_3d qb (s_hz0 s) (s_hz1 s)))
         (s_lv s) (s_pts s).
 
+(* ---------- the reader: its cached hierarchy, transient faults of the source, several queries ----------
+   CopcReader.root_page is ONE dictionary that every query updates IN PLACE with the pages it loads (merge) and that is
+   kept for the next queries - also when the query ends by an exception: a broken page reference (the rule is checked
+   before anything of the page is merged: the cache is the one the query had reached), or an exception of the source
+   while a page or a chunk range is fetched.
+   fault = Some n: the (n+1)-th read of the source from now on raises, once (a transient fault); the reads of a query are
+   its page fetches (one per page reference followed) and then one per byte query of the grouped chunks.  A read that
+   raises happens BEFORE anything is merged: the cache is then the one of the last page that was loaded. *)
+Inductive outcome (A : Type) := Ans (r : result A) | IOFault.
+Arguments Ans {A} r.
+Arguments IOFault {A}.
+
+Definition fails_now (fault : option nat) : bool := match fault with Some O => true | _ => false end.
+Definition tick (fault : option nat) : option nat := match fault with Some (S n) => Some n | _ => None end.
+
+Fixpoint traverse_rd (fuel : nat) (t : tree) (g : geom) (ob : option box) (lv : option (Z * Z)) (fault : option nat)
+         (h : list entry) (st : list vkey) (acc : list entry) : (list entry * option nat) * outcome (list entry) :=
+  match st with
+  | [] => ((h, fault), Ans (Ok (rev acc)))
+  | k :: st' =>
+    match fuel with
+    | O => ((h, fault), Ans (Err EFuel))
+    | S f =>
+      if negb (in_bounds g ob k) then traverse_rd f t g ob lv fault h st' acc
+      else if negb (below_stop lv k) then traverse_rd f t g ob lv fault h st' acc
+      else match lookup k h with
+      | None => traverse_rd f t g ob lv fault h st' acc
+      | Some e =>
+        if is_ref e then
+          if fails_now fault then ((h, None), IOFault)
+          else
+            let p := page_at (t_pages t) (e_off e) (e_size e) in
+            if page_describes k p then traverse_rd f t g ob lv (tick fault) (merge h p) (st' ++ [k]) acc
+            else ((h, tick fault), Ans (Err ELaspy))
+        else if e_cnt e >=? gen_node_min_count then
+          traverse_rd f t g ob lv fault h (rev (children k) ++ st') (if in_level lv k then e :: acc else acc)
+        else
+          traverse_rd f t g ob lv fault h st' (if in_level lv k then mkEntry k 0 0 0 :: acc else acc)
+      end
+    end
+  end.
+
+(* one COPC file and one query of a reader's history *)
+Record cfile := mkFile { f_tree : tree; f_geom : geom; f_hz0 : Z; f_hz1 : Z; f_pts : entry -> list pt }.
+Record rquery := mkRQ { r_box : qbox; r_lv : levels; r_grid : qgrid; r_fault : option nat }.
+
+(* CopcReader.__init__: the cache starts as the root page, read at hierarchy_root_offset - wherever the hierarchy is
+   stored (a VLR in front of the points, an EVLR behind them) and wherever the root page lies in it *)
+Definition open_cache (f : cfile) : list entry := page_dict (t_root (f_tree f)).
+
+(* the reads of the chunk phase: one per byte query; none when no node is selected *)
+Definition n_fetches (ns : list entry) : nat := length (byte_queries (groups (sort_off ns))).
+
+Definition query_rd (f : cfile) (h : list entry) (q : rquery) : list entry * outcome (list pt) :=
+  let ob := ensure_3d (r_box q) (f_hz0 f) (f_hz1 f) in
+  match traverse_rd (fuel_bound (f_tree f)) (f_tree f) (f_geom f) ob (level_range (r_lv q)) (r_fault q) h [root_key] [] with
+  | ((h', fl), Ans (Ok ns)) =>
+    (h', match fl with
+         | Some n => if (n <? n_fetches ns)%nat then IOFault
+                     else Ans (Ok (result_of (r_box q) (r_grid q) (fetch (f_pts f) ns)))
+         | None => Ans (Ok (result_of (r_box q) (r_grid q) (fetch (f_pts f) ns)))
+         end)
+  | ((h', _), Ans (Err e)) => (h', Ans (Err e))
+  | ((h', _), IOFault) => (h', IOFault)
+  end.
+
+(* the queries of one reader, one after the other: (cache after the query, outcome) of each *)
+Fixpoint reader_session (f : cfile) (h : list entry) (qs : list rquery) : list (list entry * outcome (list pt)) :=
+  match qs with
+  | [] => []
+  | q :: r => let ho := query_rd f h q in ho :: reader_session f (fst ho) r
+  end.
+
+(* the cache as the dictionary it is: the keys in insertion order, each with the entry a lookup finds *)
+Fixpoint dict_view (h : list entry) (seen : list vkey) : list entry :=
+  match h with
+  | [] => []
+  | e :: r => if existsb (key_eqb (e_key e)) seen then dict_view r seen else e :: dict_view r (e_key e :: seen)
+  end.
+
 (* ---------- driver entry point: everything at once ---------- *)
 Definition lookup_pts (tbl : list ((Z * Z * Z) * list pt)) (n : entry) : list pt :=
   match find (fun r => let '(o, s, c) := fst r in (o =? e_off n) && (s =? e_size n) && (c =? e_cnt n)) tbl with
@@ -390,6 +473,21 @@ Definition encloses (g : geom) (qb : qbox) : Prop :=
 Definition pts_ok (t : tree) (c : csys) (g : geom) (hz0 hz1 : Z) (pts : entry -> list pt) : Prop :=
   forall e p, In e (nodes_of t) -> In p (pts e) ->
     in_cube c g (e_key e) p /\ pt_i32 p /\ in_range1 (c_D c) (c_z c) (p_z p) hz0 hz1 = true.
+
+(* ---------- what a query of a reader's history must give ----------
+   either the source's exception - only when a fault was injected into that query - or exactly (as a multiset) the points
+   of the nodes of the selected levels that overlap the box, filtered by the integer box: what `query` on a fresh reader
+   gives (C15_points), whatever queries were made before and however they ended *)
+Definition answer_of (f : cfile) (q : rquery) : list pt :=
+  result_of (r_box q) (r_grid q)
+    (flat_map (f_pts f) (target (f_tree f) (f_geom f) (ensure_3d (r_box q) (f_hz0 f) (f_hz1 f)) (level_range (r_lv q)))).
+Definition step_ok (f : cfile) (q : rquery) (o : outcome (list pt)) : Prop :=
+  (o = IOFault /\ r_fault q <> None) \/ (exists ps, o = Ans (Ok ps) /\ Permutation ps (answer_of f q)).
+
+(* the query gets as far as the root node (its box meets the root cube, its levels are not empty) and no fault is injected *)
+Definition reaches_root (f : cfile) (q : rquery) : Prop :=
+  in_bounds (f_geom f) (ensure_3d (r_box q) (f_hz0 f) (f_hz1 f)) root_key = true
+  /\ below_stop (level_range (r_lv q)) root_key = true /\ r_fault q = None.
 
 (* ---------- executable well-formedness check (sound for wf_tree: Proofs/CopcWf.v) ---------- *)
 Fixpoint nodupb (l : list vkey) : bool :=
